@@ -10,7 +10,7 @@ sequentially in the same node, still give the oracle value.
 import random
 
 from . import canon
-from .workload import Gen, mk, call_repr, wchoice, call_key
+from .workload import Gen, mk, call_repr, wchoice, call_key, res_of
 
 RW_P = [1 / 2, 1 / 8, 1 / 32, 1 / 128, 1 / 512, 1 / 2048]
 RR_Q = [1, 2, 3, 5, 8, 13, 21, 34, 55, 89, 144, 233, 377, 610, 987]
@@ -48,11 +48,88 @@ def _same_cell_call(g, ctx, sc):
     return mk('lonlat_to_cell', sc['p'], sc['res'])
 
 
+def related_call(g, ctx, c):
+    """A call related to c by its arguments (neighbouring resolution, parent cell, the sibling function):
+    issued only after quiescence, to see state that the run's own calls do not read again."""
+    r = g.rng
+    try:
+        a = [canon.dec(x) for x in c['a']]
+        f = c['f']
+        if f == 'lonlat_to_cell' and isinstance(a[1], int):
+            return mk(f, a[0], max(0, min(29, a[1] + r.choice([-1, 1]))))
+        if f in ('get_num_cells', 'cell_area') and isinstance(a[0], int):
+            return mk(r.choice(['get_num_cells', 'cell_area']), a[0] + r.choice([-1, 1, 1, 2]))
+        if f in ('cell_to_lonlat', 'cell_to_boundary', 'get_resolution', 'u64_to_hex', 'cell_to_parent', 'cell_to_children') \
+                and isinstance(a[0], int):
+            par = ctx.value(mk('cell_to_parent', a[0]))
+            tgt = par if (isinstance(par, int) and par and r.random() < 0.6) else a[0]
+            return mk(r.choice(['cell_to_lonlat', 'cell_to_boundary', 'get_resolution', 'cell_to_children']), tgt)
+        if f == 'uncompact' and isinstance(a[0], (list, tuple)) and isinstance(a[1], int):
+            return mk(f, list(a[0])[:6], min(30, a[1] + 1))
+        if f == 'compact' and isinstance(a[0], (list, tuple)):
+            return mk(f, list(a[0])[:max(1, len(a[0]) // 2)])
+        if f == 'hex_to_u64' and isinstance(a[0], str):
+            return mk(f, a[0].upper() if a[0] != a[0].upper() else a[0].lower())
+    except Exception:
+        pass
+    return None
+
+
+def make_probes(g, ctx, threads, n=3):
+    calls = [c for tc in threads for c in tc]
+    g.rng.shuffle(calls)
+    out = []
+    for c in calls:
+        p = related_call(g, ctx, c)
+        if p is not None and ctx.usable(p) and ctx.oracle(p)['steps'] <= 100_000:
+            out.append(p)
+        if len(out) >= n:
+            break
+    return out
+
+
+TINY_FAMILIES = {'counting': ['get_num_cells', 'cell_area'],
+                 'hex': ['u64_to_hex', 'hex_to_u64'],
+                 'hierarchy': ['get_resolution', 'cell_to_parent', 'cell_to_children', 'uncompact', 'compact', 'get_res0_cells']}
+
+
+def tiny_pair_functions(rng):
+    """Two small functions, usually of one family (they are the ones likely to share a table or memo)."""
+    fam = wchoice(rng, {'counting': 35, 'hex': 15, 'hierarchy': 50})
+    fa = rng.choice(TINY_FAMILIES[fam])
+    if rng.random() < 0.7:
+        fb = rng.choice(TINY_FAMILIES[fam])
+    else:
+        fb = rng.choice(TINY_FAMILIES[wchoice(rng, {'counting': 35, 'hex': 15, 'hierarchy': 50})])
+    return fa, fb
+
+
+def tiny_call(g, f, res, cell):
+    r = g.rng
+    if f in ('get_num_cells', 'cell_area'):
+        return mk(f, res)
+    if f in ('get_resolution', 'u64_to_hex'):
+        return mk(f, cell)
+    if f == 'hex_to_u64':
+        return mk(f, '%x' % cell)
+    if f == 'cell_to_parent':
+        return mk(f, cell) if r.random() < 0.5 else mk(f, cell, max(0, res - r.randint(1, 3)))
+    if f == 'cell_to_children':
+        return mk(f, cell)
+    if f == 'uncompact':
+        return mk(f, [cell], min(29, res + r.randint(0, 2)))
+    if f == 'compact':
+        ch = g.ctx.value(mk('cell_to_children', cell)) or [cell]
+        return mk(f, list(ch))
+    return mk('get_res0_cells')
+
+
 SWEEP_KINDS = ['samecell-cold', 'samecell-other', 'repeat-recent', 'identical-cold', 'sameface-cold',
                'far-cold', 'samecell-hot', 'edge-cold', 'samecell-cold@instr', 'repeat-recent@instr',
                'coarse-cold', 'coarse-other', 'hier-other', 'capacity-256', 'capacity-1024',
-               'hier-other@instr', 'coarse-cold@instr',
-               # thorough tier only (the quick tier runs the first 17 kinds):
+               'hier-other@instr', 'coarse-cold@instr', 'tiny@instr', 'tiny@instr', 'tiny@instr', 'tiny@instr',
+               'tiny@instr', 'tiny@instr', 'tiny@instr', 'tiny@instr',
+               # thorough tier only (the quick tier runs the first 25 kinds):
                'capacity-4096', 'capacity-65536', 'capacity-16384', 'capacity-512', 'capacity-2048', 'capacity-1000']
 
 
@@ -80,7 +157,16 @@ def gen_sweep(ctx, rng, kind):
     wa, wb = rng.randrange(3), rng.randrange(3)
     warm = []
     bulk = None
-    if kind.startswith('capacity-'):
+    if kind == 'tiny':
+        # two very small calls of the counting / hierarchy / hex functions with related arguments (same or
+        # neighbouring resolution, same cell), cold: small enough for every bytecode boundary of A to be tried
+        res = rng.randint(2, 28)
+        cell = sc['cell'] if res_of(sc['cell']) == res else g.synth_cell()
+        res = max(0, res_of(cell))
+        fa, fb = tiny_pair_functions(rng)
+        A = tiny_call(g, fa, res + rng.choice([0, 1, 1]), cell)
+        B = tiny_call(g, fb, res, cell)
+    elif kind.startswith('capacity-'):
         # the pair starts 1-3 inserts short of a round capacity: the exhaustive sweep then finds any window in
         # which B's insert evicts/resets what A still relies on
         cap = int(kind.split('-')[1])
@@ -129,6 +215,9 @@ def gen_sweep(ctx, rng, kind):
     solo = [[ctx.oracle(c, gran=gran)['steps'] for c in tc] for tc in threads]
     est = sum(sum(x) for x in solo)
     extra = {'bulk': bulk} if bulk else {}
+    pr = make_probes(g, ctx, threads, 2)
+    if pr:
+        extra['probes'] = pr
     return {'threads': threads, 'warm': warm, 'plan': {'plan': 'one', 'a': 0, 'k': 0, 'order': [1]}, 'seed': 0, **extra,
             'budget': 20 * est + 100_000 * (1 if gran == 'line' else 8), 'est_len': est, 'gran': gran, 'post': True,
             'conf': {'T': 2, 'locality': kind, 'mix': 'geo', 'temp': kind.split('-')[-1], 'counts': [1, 1]}}
@@ -260,6 +349,9 @@ def gen_spec(ctx, rng, tier, force=None):
         spec['kill'] = kill
     if bulk:
         spec['bulk'] = bulk
+    pr = make_probes(g, ctx, threads, rng.randint(1, 3))
+    if pr:
+        spec['probes'] = pr
     if force.get('clock_jumps'):
         # (implemented, not drawn by the deciding check: time dependence is C17's to report, and the
         # sequential-explanation step could not tell it from a schedule dependence)
@@ -351,6 +443,18 @@ def judge(ctx, spec, res, explain=True):
         c = spec['threads'][t][i]
         v = {'kind': 'returned-object-changed-later', 'thread': t, 'call': i, 'f': c['f'], 'call_repr': call_repr(c),
              'expected': res['results'][t][i][0], 'observed': now}
+    if v is None and res['post'] is not None and spec.get('probes') and len(res['post']) > len(spec['threads']):
+        T = len(spec['threads'])
+        for which in ('post', 'post_seq'):
+            for i, c in enumerate(spec['probes']):
+                e = ctx.oracle(c)['outcome']
+                if res[which][T][i] != e:
+                    v = {'kind': 'poisoned-after-quiescence', 'thread': T, 'call': i, 'f': c['f'], 'call_repr': call_repr(c),
+                         'expected': e, 'observed': res[which][T][i],
+                         'when': 'a related call (not one of the run) issued after quiescence'}
+                    break
+            if v:
+                break
     if v is None and res['post'] is not None:
         for which in ('post', 'post_seq'):
             for t, tc in enumerate(spec['threads']):
@@ -366,7 +470,7 @@ def judge(ctx, spec, res, explain=True):
                 break
     if v is None:
         return None
-    v['detail'] = '%s: %s: %s' % (v['kind'], call_repr(spec['threads'][v['thread']][v['call']], 90), canon.diff_text(v['expected'], v['observed']))
+    v['detail'] = '%s: %s: %s' % (v['kind'], v['call_repr'][:160], canon.diff_text(v['expected'], v['observed']))
     if explain:
         order = _explainable(ctx, spec, res)
         if order is not None:
